@@ -23,6 +23,8 @@ const CAPS_SMALL: [usize; 6] = [1, 1, 2, 2, 3, 4];
 pub fn c18_build(raw: &Raw, _tier: Tier, _sched: bool) -> Scenario {
     let mut o = PipeOpts::base("c18");
     o.mws = (0, 3);
+    o.reducers = (0, 3);
+    o.runtime_add = true;
     o.verdicts = true;
     o.effects = true;
     o.panics = true;
@@ -218,7 +220,7 @@ pub fn c18_check(scn: &Scenario, h: &History) -> Outcome {
 
 pub static C18: Profile = Profile {
     id: "C18",
-    rule: "proptest scenarios: every policy, capacity 1-4, 1-4 producers, 0-3 middlewares with verdict patterns (veto, Break, Err), every effect kind (follow-up actions only with BlockOnFull), a racing stop followed by more dispatches, client thunks, one sampler thread reading get_metrics() in a loop. Oracle O-METRIC after Ret(stop): counter equations against counts taken from the scripted callbacks' event log (received vs pipeline runs incl. marker, received+dropped vs dispatch calls made while open as an interval, reduced = received - vetoed, effect_issued, middleware_executed, error_occurred = rejected own-dispatch calls); per-counter monotonicity across snapshots ordered in real time. Non-trivial = >= 2 producers, a veto or an effect, something dropped or rejected, and the dispatched-while-open count exact; distinct by scenario hash.",
+    rule: "proptest scenarios: every policy, capacity 1-4 (or the convenience constructors' defaults), 1-4 producers, 0-3 build-time reducers and run-time add_reducer / add_middleware / add_subscriber, 0-3 middlewares with verdict patterns (veto, Break, Err), every effect kind (follow-up actions only with BlockOnFull), a racing stop followed by more dispatches, client thunks, one sampler thread reading get_metrics() in a loop. Oracle O-METRIC after Ret(stop): counter equations against counts taken from the scripted callbacks' event log (received vs pipeline runs incl. marker, received+dropped vs dispatch calls made while open as an interval, reduced = received - vetoed, effect_issued, middleware_executed, error_occurred = rejected own-dispatch calls); per-counter monotonicity across snapshots ordered in real time. Non-trivial = >= 2 producers, a veto or an effect, something dropped or rejected, and the dispatched-while-open count exact; distinct by scenario hash.",
     raw,
     build: c18_build,
     check: c18_check,
@@ -250,6 +252,15 @@ pub fn c19_build(raw: &Raw, _tier: Tier, _sched: bool) -> Scenario {
         let nmw = pick(knob(raw, 10 + i), 2);
         let mws: Vec<CompId> = (0..nmw).map(|_| b.middleware(s)).collect();
         stores.push((s, reds, mws));
+    }
+    // half of the cases: every reducer and middleware of one store reads the state of the other
+    // one from inside its callbacks (a read-only use of a second store in the reducer context)
+    if knob(raw, 15) % 2 == 0 {
+        for (s, reds, mws) in stores.clone() {
+            for c in reds.iter().chain(mws.iter()) {
+                b.comp_mut(*c).pokes = Some(1 - s);
+            }
+        }
     }
     // one subscriber object registered in both stores, plus one private subscriber each
     let shared = b.sub(SubKind::Direct);
@@ -462,7 +473,7 @@ pub fn c19_check(scn: &Scenario, h: &History) -> Outcome {
 
 pub static C19: Profile = Profile {
     id: "C19",
-    rule: "proptest scenarios: two stores with equal or different configuration (same name half of the time, the same scripted reducer/middleware types, one subscriber object registered in both plus a private one each), 1-4 client threads operating on both (dispatch through every entry point, thunks, get_state, get_metrics, unsubscribe of the shared subscriber from store 0; a subscriber of store 0 forwarding actions into store 1 from store 0's reducer thread), store 0 stopped or dropped at a generated point while store 1 is in use. Oracle O-ISOL: the C01/C03/C07/C12 pipeline model, effect, acceptance and C18 metric equations evaluated per store on that store's sub-log; no callback of one store ever carries a component or action of the other; store 1 keeps accepting and reducing after Ret(stop store 0). Non-trivial = store 1 had an action in flight while store 0 was being stopped, or was used after it; distinct by scenario hash.",
+    rule: "proptest scenarios: two stores with equal or different configuration (same name half of the time, the same scripted reducer/middleware types, one subscriber object registered in both plus a private one each), 1-4 client threads operating on both (dispatch through every entry point, thunks, get_state, get_metrics, unsubscribe of the shared subscriber from store 0; a subscriber of store 0 forwarding actions into store 1 from store 0's reducer thread; in half of the cases every reducer and middleware of one store calls get_state() of the other store from inside its callbacks), store 0 stopped or dropped at a generated point while store 1 is in use. Oracle O-ISOL: the C01/C03/C07/C12 pipeline model, effect, acceptance and C18 metric equations evaluated per store on that store's sub-log; no callback of one store ever carries a component or action of the other; store 1 keeps accepting and reducing after Ret(stop store 0). Non-trivial = store 1 had an action in flight while store 0 was being stopped, or was used after it; distinct by scenario hash.",
     raw,
     build: c19_build,
     check: c19_check,
